@@ -938,15 +938,14 @@ class FlippedEncoding(LazyIndexMap):
 
     def flip(self, axis=0):
         if isinstance(axis, np.ndarray):
-            if axis.size == 1:
-                axis = (axis.item(),)
-            else:
-                axis = tuple(axis)
+            axes = tuple(axis.reshape(-1).tolist())
         elif isinstance(axis, int):
             axes = (axis,)
         else:
             axes = tuple(axis)
-        return _flipped(self, self._axes + axes)
+        ndims = self.ndims
+        axes = tuple(a + ndims if a < 0 else a for a in axes)
+        return _flipped(self._data, self._axes + axes)
 
     def _flip(self, axes):
         raise RuntimeError("Should not be here")
